@@ -23,7 +23,8 @@ CLAIM = dict(
          "for ANY collection order, hence every slot s of the C-ordered output holds the value of the unique tabulated "
          "k-point equal to k_new[s]; find_grid returns g for every complete grid in any order with any multiplicities "
          "(sorting, gaps, largest gap proved), in particular for every factorisation; a selected band gets the value of "
-         "THE degenerate group containing it; word and tuple components pick the same tensor element, components are "
+         "THE degenerate group containing it and the columns follow the selection as given (any order, repetitions kept; "
+         "'np.unique first' is proved to permute / drop columns); word and tuple components pick the same tensor element, components are "
          "linear, trace = xx..x+yy..y+zz..z, norm^2 = sum_i d_i conj(d_i) over the last axis only, get_component_list has "
          "3^dim (+trace) entries all of which can be extracted.",
     note="Trusted: Lean kernel + Mathlib; the harness; numpy rint/sort/meshgrid/reshape/transpose/linalg.norm (sqrt is a "
@@ -217,9 +218,11 @@ def corr(ctx):
             groups = list(zip(borders, borders[1:]))
             if rng.random() < 0.4:
                 rng.shuffle(groups)      # dictionary order must not matter for disjoint groups
-            how = rng.choice(["all", "subset", "single", "reordered"])
+            how = rng.choice(["all", "subset", "single", "reordered", "descending", "repeated"])
             ib = list(range(nb)) if how == "all" else sorted(rng.sample(range(nb), rng.randint(1, nb))) if how == "subset" \
-                else [rng.randrange(nb)] if how == "single" else rng.sample(range(nb), rng.randint(1, nb))
+                else [rng.randrange(nb)] if how == "single" else rng.sample(range(nb), rng.randint(1, nb)) \
+                if how == "reordered" else sorted(rng.sample(range(nb), rng.randint(1, nb)), reverse=True) \
+                if how == "descending" else [rng.randrange(nb) for _ in range(rng.randint(2, nb + 2))]
             try:
                 with quiet():
                     tab = Tabulator(StubFormula, ibands=None if how == "all" and rng.random() < 0.5 else ib)
@@ -441,6 +444,7 @@ def oracle(ctx, scale):
                 ctx.fail("get_component modified the stored data", case)
 
     longword_probe(ctx, W)
+    band_selection_oracle(ctx, W, scale)
     real_runs(ctx, W, scale)
 
 
@@ -461,6 +465,98 @@ def longword_probe(ctx, W):
         ctx.note("observation: get_component(data, ndim=2, 'norm') raises KeyError rather than NoComponentError")
     except Exception:  # noqa
         pass
+
+
+def rand_selection(rng, nw, kind=None):
+    """band selections in every form the API accepts: ascending, descending, arbitrary order, repeated entries"""
+    kind = kind or rng.choice(["ascending", "descending", "arbitrary", "arbitrary", "repeated", "repeated", "single", "none"])
+    if kind == "none":
+        return kind, None
+    if kind == "single":
+        return kind, [rng.randrange(nw)]
+    if kind == "ascending":
+        return kind, sorted(rng.sample(range(nw), rng.randint(1, nw)))
+    if kind == "descending":
+        return kind, sorted(rng.sample(range(nw), rng.randint(2, nw)), reverse=True)
+    if kind == "arbitrary":
+        for _ in range(20):
+            sel = rng.sample(range(nw), rng.randint(2, nw))
+            if sel != sorted(sel):
+                return kind, sel
+        return kind, list(range(nw))[::-1]
+    sel = [rng.randrange(nw) for _ in range(rng.randint(2, nw + 1))]
+    sel.append(sel[0])
+    rng.shuffle(sel)
+    return kind, sel
+
+
+def band_selection_oracle(ctx, W, scale):
+    """band selections at EVERY level that accepts them - TabulatorAll(ibands=), each Tabulator(ibands=),
+    get_data(iband=) - in grid and path mode: column j must be band sel[j] of the same k-point evaluated alone,
+    in the order the user gave (repetitions included)"""
+    from ..wbsys import rand_system, wb
+    tab = wb.calculators.tabulate
+    rng = ctx.rng
+    rs = np.random.RandomState(rng.getrandbits(31))
+    ranks = {"Energy": 0, "V": 1, "O": 1}
+    classes = {"Energy": tab.Energy, "V": tab.Velocity, "O": tab.BerryCurvature}
+    for isys in range(ctx.n(1, 3)):
+        nw = int(rs.choice([3, 4, 5]))
+        with quiet():
+            system = rand_system(rs, num_wann=nw, nR=5, matrices=("Ham", "AA"))
+        for it in range(ctx.n(16, 60) * min(scale, 4)):
+            k = np.array([rng.randint(0, 7) / 8 + rng.choice([0, 0.03]) for _ in range(3)])
+            kind, sel = rand_selection(rng, nw)
+            cols = list(range(nw)) if sel is None else list(sel)
+            mode = rng.choice(["grid", "path"])
+            level = rng.choice(["TabulatorAll", "TabulatorAll+members", "member only"])
+            case = dict(num_wann=nw, k=k, ibands=sel, kind=kind, mode=mode, level=level)
+            ctx.case(signature=("bands", nw, tuple(k), tuple(cols), kind, mode, level), nontrivial=sel is not None)
+            ctx.count(f"oracle.bands.{kind}")
+            ctx.count(f"oracle.bands.level={level}")
+            ctx.count(f"oracle.bands.mode={mode}")
+            with ctx.attempt("band selection", case), quiet():
+                # reference: every band of that k-point, evaluated with ibands=None and band by band
+                full = wb.evaluate_k(system, k=k, calculators={q: c() for q, c in classes.items()},
+                                     return_single_as_dict=True)
+                full = {q: full[q].data[0] for q in classes}
+                b0 = cols[0]
+                one = wb.evaluate_k(system, k=k, calculators={q: c(ibands=[b0]) for q, c in classes.items()},
+                                    return_single_as_dict=True)
+                for q in classes:
+                    if np.abs(one[q].data[0][0] - full[q][b0]).max() > 1e-9 * (1 + np.abs(full[q]).max()):
+                        ctx.fail(f"{q}: a single selected band {b0} differs from that band of the full tabulation", case)
+                if level == "member only":
+                    res = wb.evaluate_k(system, k=k, calculators={q: c(ibands=sel) for q, c in classes.items()},
+                                        return_single_as_dict=True)
+                    got = {q: res[q].data[0] for q in classes}
+                    T = None
+                else:
+                    members = {q: (c(ibands=sel) if level == "TabulatorAll+members" else c()) for q, c in classes.items()}
+                    calc = tab.TabulatorAll(members, ibands=sel, mode=mode, save_mode="none")
+                    T = wb.evaluate_k(system, k=k, calculators={"t": calc}, return_single_as_dict=True)["t"]
+                    got = {q: T.get_data(q)[0] for q in classes}
+                for q in classes:
+                    want = full[q][cols]
+                    if got[q].shape != want.shape or np.abs(got[q] - want).max() > 1e-9 * (1 + np.abs(full[q]).max()):
+                        wrong = [j for j in range(min(len(cols), len(got[q])))
+                                 if np.abs(got[q][j] - want[j]).max() > 1e-9 * (1 + np.abs(full[q]).max())] \
+                            if got[q].shape == want.shape else "shape"
+                        ctx.fail(f"{q} with ibands={sel} ({level}, mode={mode}): columns {wrong} are not the bands "
+                                 f"{cols} in the order given (shape {got[q].shape}, expected {want.shape})",
+                                 dict(case, quantity=q))
+                        break
+                # a second selection on the stored result: get_data(iband=...) indexes the columns as stored
+                if T is not None:
+                    _, sel2 = rand_selection(rng, len(cols), kind=rng.choice(["descending", "arbitrary", "repeated", "single"])
+                                             if len(cols) > 1 else "single")
+                    for q in ("Energy", "V"):
+                        g2 = T.get_data(q, iband=sel2, component=None if q == "Energy" else "z")
+                        w2 = full[q][cols][sel2] if q == "Energy" else full[q][cols][sel2][..., 2]
+                        if g2[0].shape != w2.shape or np.abs(g2[0] - w2).max() > 1e-9 * (1 + np.abs(full[q]).max()):
+                            ctx.fail(f"get_data({q!r}, iband={sel2}) on a result tabulated with ibands={sel} does not "
+                                     f"return the stored columns {sel2} in that order", dict(case, quantity=q, iband=sel2))
+                            break
 
 
 def real_runs(ctx, W, scale):
@@ -504,8 +600,8 @@ def real_runs(ctx, W, scale):
             ref_all = ref
             for ifac, (div, fft) in enumerate(facs):
                 # a different band selection for every factorisation (None = all bands)
-                sel = [None, sorted(rng.sample(range(nw), rng.randint(1, nw))), [rng.randrange(nw)],
-                       rng.sample(range(nw), rng.randint(1, nw))][(ifac + isys) % 4]
+                sel = rand_selection(rng, nw, kind=["arbitrary", "repeated", "none", "descending", "ascending",
+                                                    "single"][(ifac + isys) % 6])[1]
                 ibands = list(range(nw)) if sel is None else list(sel)
                 ref = {q: v[:, :, :, ibands] for q, v in ref_all.items()}
                 case = dict(num_wann=nw, grid=g, NKdiv=div, NKFFT=fft, ibands=sel,
@@ -560,6 +656,34 @@ def real_runs(ctx, W, scale):
                                 np.abs(nrm - np.linalg.norm(ref["O"], axis=-1)).max() > 1e-9 * scale_q["O"]:
                             ctx.fail(f"{name}: component y / trace / norm of a tabulated quantity differs from the algebra",
                                      case)
+            # the same model tabulated along a path, with an unsorted / repeated band selection
+            with ctx.attempt("tabulation along a path", dict(num_wann=nw)):
+                kpath = [[rng.randint(0, 11) / 12 for _ in range(3)] for _ in range(rng.randint(3, 6))]
+                kindp, selp = rand_selection(rng, nw, kind=rng.choice(["arbitrary", "repeated", "descending"]))
+                with quiet(), warnings.catch_warnings():
+                    warnings.simplefilter("ignore")
+                    path = wb.Path(system, k_list=kpath)
+                    calc = tab.TabulatorAll(tabs(), ibands=selp, mode="path", save_mode="none")
+                    res = wb.run(system, path, calculators={"tabulate": calc}, parallel=False, adpt_num_iter=0,
+                                 print_progress_step_time=1e6, fout_name=os.path.join(ctx.work, "result"), suffix="c30p",
+                                 file_Klist_path=os.path.join(ctx.work, "klist"))
+                    TP = res.results["tabulate"]
+                    refp = {q: [] for q in ranks}
+                    for kk in kpath:
+                        r = wb.evaluate_k(system, k=np.array(kk), calculators={q: type(t)() for q, t in tabs().items()},
+                                          return_single_as_dict=True)
+                        for q in ranks:
+                            refp[q].append(r[q].data[0][selp])
+                ctx.case(signature=("path", nw, tuple(map(tuple, kpath)), tuple(selp)), nontrivial=True)
+                ctx.count("oracle.path-run")
+                casep = dict(num_wann=nw, kpath=kpath, ibands=selp, kind=kindp)
+                for q in ranks:
+                    with quiet():
+                        got = TP.get_data(q)
+                    want = np.array(refp[q])
+                    if got.shape != want.shape or np.abs(got - want).max() > 1e-9 * (1 + np.abs(want).max()):
+                        ctx.fail(f"path tabulation: {q} with ibands={selp} is not, point by point and column by column, "
+                                 f"the selected bands in the order given", dict(casep, quantity=q))
     finally:
         os.chdir(cwd)
 
